@@ -98,6 +98,7 @@ func tagLitSet(ls []tagLit) string {
 
 func checkC12(c *Ctx) {
 	c.Explanation = "Decides the structure of the packet size accounting: (O1) the batching loop keeps `bytes >= sum of the charged sizes of the open batch`, tests `bytes + size > freeBytes` before appending and emits the open batch before appending a metric that does not fit; (O2) the size enqueued with a metric is the handle's size, which is calculateSize of the very template stored in the handle (bucket handles: of the template with the two bucket tags in place); (O3) every field written at report time (Count/Gauge/Timer, Timestamp) holds the maximum of its type in the template of that kind, and each Allocate* uses the template kind its handle method writes; (O4a) the envelope overhead is measured by emitting the empty batch with the common tags through the same generated EmitMetricBatchV2 over the size-calculating transport with the longest sequence id, plus a constant >= the growth of the metric list header (or a constant >= the table maximum 33); (O4b) the two bucket tags the batching loop appends are exactly the (name field, value field) pairs the bucket template was sized with; (O5) freeBytes = MaxPacketSizeBytes - overhead, the constructor refuses freeBytes <= 0, and the overflow test reads that field."
+	c.Explanation += " Added by round 9: (O5 write-errors-from-protocol, shared with C16) the generated writers fail only when the protocol fails."
 	c.NotDecided = []string{"actual datagram lengths (the encoder is C16; the vendored protocols' per-op costs are trusted)", "the 65000-byte transport limit (C15)"}
 	c.Assumptions = append(c.Assumptions, "per-op byte costs of the vendored Compact/Binary protocols: varint length grows with magnitude, fixed-width doubles; list header Compact 1..6 bytes, Binary 5")
 	const pk = "m3"
